@@ -522,7 +522,17 @@ def relpar_cfgs(tier, seed):
         d = dict(useed=u, vseed=v, threads=threads)
         d.update(kw)
         C.append(("relpar", d))
+    # the same, driven from INSIDE a worker of a dedicated pool: rayon splits injected work further than work that starts on
+    # a worker, so only here does one job handle several Jacobian columns / right-hand sides on small pools
+    for (threads, kw) in [(1, dict(n=3, m=2, s=1, p=3, w="diag", maxpaths=8)), (1, dict(n=3, m=2, s=3, p=4, w="none", mrhs=1, maxpaths=4)),
+                          (2, dict(n=3, m=2, s=1, p=6, w="diag", maxpaths=4)), (4, dict(n=2, m=2, s=2, p=9, w="none", mrhs=1, maxpaths=2))]:
+        d = dict(useed=u, vseed=v, threads=threads, install=1)
+        d.update(kw)
+        C.append(("relpar", d))
     if tier == "thorough":
+        for threads in (1, 2, 3):
+            for pp in (3, 5, 7):
+                C.append(("relpar", dict(n=3, m=2, s=1 + pp % 2, p=pp, w="diag", mrhs=pp % 2, useed=v, vseed=u, threads=threads, install=1, maxpaths=4)))
         for threads in (1, 2, 3, 4, 8, 16):
             C.append(("relpar", dict(n=3, m=2, s=3 + threads % 3, p=1, w="diag", mrhs=1, useed=u, vseed=v, threads=threads, maxpaths=16)))
             C.append(("relpar", dict(n=4, m=2, s=2, p=2, w="diag", mrhs=1, useed=v, vseed=u, threads=threads)))
@@ -544,7 +554,7 @@ R_PROPS.update({
     "C16": dict(prefixes=["C16"], cfgs=lambda t, s: routing_programs(t, s), twins=[("routing", dict(prog="P:a,b;F:b,a:a,b;X;XP", twin=1))]),
     "C17": dict(prefixes=["C17", "C16"], cfgs=lambda t, s: misuse_programs(t, s) + routing_programs("quick", s)[:12], twins=[("routing", dict(prog="P:a,b;F:b,a:a,b;X;XP", twin=1))]),
     "C18": dict(prefixes=["C18", "C01.coefficients_present", "C02.residuals", "SVD"], want={"basic", "order", "par"}),
-    "C09": dict(prefixes=["C09", "C03.jacobian", "C10.fresh"], want={"faults"}, twins=[("core", dict(n=3, m=2, s=1, p=1, w="diag", hist=2, twin=1, useed=2, vseed=5))], twin_prefixes=["C09"]),
+    "C09": dict(prefixes=["C09", "C03.jacobian", "C10.fresh", "C02.residuals", "C01.closed_form", "SVD"], want={"faults"}, twins=[("core", dict(n=3, m=2, s=1, p=1, w="diag", hist=2, twin=1, useed=2, vseed=5))], twin_prefixes=["C09"]),
 })
 # C04: coherence of the state the optimizer leaves behind = C01/C02/C10 after update histories (incl. re-applying earlier parameters)
 def symfit_cfgs(tier, seed, faults=False):
@@ -554,14 +564,26 @@ def symfit_cfgs(tier, seed, faults=False):
     base = dict(round_shadows=1, noflip=1)
     C = []
     if not faults:
-        shapes = [dict(n=3, p=1, patience=1), dict(n=3, p=1, patience=3), dict(n=3, p=1, patience=2, w="none", salt=1 + seed % 3),
-                  dict(n=4, p=2, patience=3, salt=2)]
+        # salts 2 / 11 / 10: trajectories with a rejected trial step (the accepted parameters are re-applied), termination
+        # `Orthogonal`, a long run that loses patience (surveyed once; the termination is recorded in the evidence)
+        shapes = [dict(n=3, p=1, patience=1), dict(n=3, p=1, patience=3), dict(n=4, p=2, patience=3, salt=2), dict(n=3, p=1, patience=3, salt=2)]
+        if tier == "thorough":
+            shapes += [dict(n=3, p=1, patience=2, w="none", salt=1 + seed % 3), dict(n=3, p=1, patience=3, salt=11)]
         if tier == "thorough":
             shapes += [dict(n=3, p=1, patience=pt, salt=sl) for pt in (2, 4, 6) for sl in (3, 4, 5 + seed % 5)]
             shapes += [dict(n=4, p=2, patience=pt, salt=sl, w=w) for pt in (1, 2, 4) for sl in (6, 7) for w in ("diag", "none")]
-            shapes += [dict(n=5, p=2, patience=2, salt=8), dict(n=4, p=3, patience=2, salt=9)]
+            shapes += [dict(n=5, p=2, patience=2, salt=8), dict(n=4, p=3, patience=2, salt=9), dict(n=3, p=1, patience=5, salt=10)]
         for sh in shapes:
             C.append(("symfit", dict(base, **sh)))
+        # two basis functions inside the loop: the model is defined through its factors (rotation of a fixed frame by
+        # rational functions of alpha), planted afresh at every evaluation
+        two = [dict(p=1, patience=1), dict(p=2, patience=2, salt=1 + seed % 3)]
+        if tier == "thorough":
+            two += [dict(p=1, n=4, patience=3, salt=2, w="none")]
+            two += [dict(p=1, patience=pt, salt=sl, useed=us) for pt in (2, 4) for sl in (3, 4) for us in (2, 3)]
+            two += [dict(p=2, patience=pt, salt=sl, n=nn) for pt in (1, 3) for sl in (5, 6) for nn in (5, 6)]
+        for sh in two:
+            C.append(("symfit2", dict(base, **sh)))
     else:
         # a model failure at call index k of the fit (set_params / eval / derivative calls are counted together)
         ks = (0, 1, 2, 4, 7) if tier == "quick" else tuple(range(0, 14))
@@ -570,13 +592,39 @@ def symfit_cfgs(tier, seed, faults=False):
             if tier == "thorough":
                 C.append(("symfit", dict(base, n=4, p=2, patience=2, fail_at=k, persistent=1, salt=2)))
         C.append(("symfit", dict(base, n=3, p=1, patience=3, fail_at=3, persistent=1)))
+        for k in ((1, 3, 5) if tier == "quick" else tuple(range(0, 10))):
+            C.append(("symfit2", dict(base, p=1, patience=2, fail_at=k)))
     return C
 
 
 R_PROPS["C04"] = dict(prefixes=["C01", "C02", "C10", "SVD", "C04"], want={"hist"}, cfgs=lambda t, s: symfit_cfgs(t, s),
                       twins=[("core", dict(n=3, m=2, s=1, p=1, w="diag", eps="sym", twin=1, useed=2, vseed=5)),
-                             ("symfit", dict(n=3, p=1, patience=2, round_shadows=1, noflip=1, twin=1), ["C04"])])
+                             ("symfit", dict(n=3, p=1, patience=2, round_shadows=1, noflip=1, twin=1), ["C04"]),
+                             ("symfit2", dict(p=1, patience=2, round_shadows=1, noflip=1, twin=1), ["C04", "C01", "C02"])])
 R_PROPS["C09"]["cfgs"] = lambda t, s: symfit_cfgs(t, s, faults=True)
+
+
+def relfit_cfgs(tier, seed, kind):
+    """complete fits through two flavours in one term arena (sequential vs parallel; vector API vs one-column matrix API)"""
+    base = dict(round_shadows=1, noflip=1, kind=kind)
+    if kind == "par":
+        C = [dict(n=3, p=1, patience=2, threads=3), dict(n=4, p=2, s=2, mrhs=1, patience=2, threads=2, salt=1 + seed % 3), dict(n=4, p=3, patience=1, threads=1, salt=2),
+             dict(n=4, p=3, patience=1, threads=1, salt=3, install=1)]
+        if tier == "thorough":
+            C += [dict(n=3, p=1, patience=pt, threads=th, salt=sl) for pt in (1, 3, 5) for th in (1, 2, 4) for sl in (3, 4)]
+            C += [dict(n=5, p=3, s=3, mrhs=1, patience=2, threads=th, salt=5) for th in (1, 2, 3)]
+    else:
+        C = [dict(n=3, p=1, patience=3), dict(n=4, p=2, patience=2, salt=1 + seed % 3, w="none")]
+        if tier == "thorough":
+            C += [dict(n=3, p=1, patience=pt, salt=sl) for pt in (1, 2, 5) for sl in (2, 3)]
+    return [("relfit", dict(base, **c)) for c in C]
+
+
+_c11 = R_PROPS["C11"]["cfgs"]
+R_PROPS["C11"]["cfgs"] = lambda t, s: _c11(t, s) + relfit_cfgs(t, s, "par")
+R_PROPS["C11"]["twins"] = R_PROPS["C11"]["twins"] + [("relfit", dict(round_shadows=1, noflip=1, kind="par", n=3, p=1, patience=2, threads=2, twin=1), ["C11.fit"])]
+_c07 = R_PROPS["C07"]["cfgs"]
+R_PROPS["C07"]["cfgs"] = lambda t, s: _c07(t, s) + relfit_cfgs(t, s, "onecol")
 R_PROPS["C08"] = dict(prefixes=["C08"], cfgs=lambda t, s: degenerate_cfgs(t, s), twins=[], check_divisors=False)
 R_PROPS["C01"]["prefixes"] = ["C01", "SVD"]
 R_PROPS["C01"]["extra"] = ["lin"]
